@@ -215,7 +215,15 @@ def run(prog, rep, tier='quick'):
                               loc(f.mod, e[1]))
             else:
                 rep.proved('exact-solve', f.qname, normalise(e[1]), 'no truncation threshold passed (machine-precision default)', loc(f.mod, e[1]))
-        if not ls:
+        pv = [e for e in itp.events if e[0] == 'pinv' and e[3] == f.qname and 'x' in e[2].taint
+              and e[2].shape is not None and len(e[2].shape) == 2 and e[2].shape[0] == e[2].shape[1]]
+        if not ls and pv:
+            rep.violation('exact-solve', f.qname, normalise(pv[0][1])[:70], 'the coefficients come from the pseudo-inverse of the square Gram '
+                          'matrix of the data (normal equations): the condition number is squared and pinv drops every direction whose '
+                          'singular value is below its relative cutoff, so for a full-rank but ill-conditioned data matrix (noiseless '
+                          'close sinusoids) the result is a truncated solution, not the minimiser of the prediction error',
+                          loc(f.mod, pv[0][1]))
+        elif not ls:
             rep.undecided('exact-solve', f.qname, 'lstsq', 'lstsq call not found', loc(f.mod, f.node))
     # Marple recursions
     for mod, fname, idxs in (('covar', 'arcovar_marple', (1, 3)), ('modcovar', 'modcovar_marple', (1,))):
